@@ -106,7 +106,14 @@ func withTimeout(d time.Duration, f func() string) string {
 	case r := <-done:
 		return r
 	case <-time.After(d):
-		return "stuck"
+		// if the whole process was held up (a loaded or briefly frozen machine) both the operation and this timer may have become
+		// ready together and `select` picked the timer: give the operation a grace period before calling it stuck (a real hang stays one)
+		select {
+		case r := <-done:
+			return r
+		case <-time.After(d/4 + time.Second):
+			return "stuck"
+		}
 	}
 }
 
